@@ -333,6 +333,11 @@ DependsOn(pr, S, n) ==          \* node index n (transitively) consumes an outpu
       nxt == S \cup direct
   IN IF nxt = S THEN n \in S ELSE DependsOn(pr, nxt, n)
 
+\* node n lies on a dependency cycle (a loop re-executes it: "pause again", no fixed dependency order)
+OnCycle(pr, n) == \E j \in NodeIdx(pr) :
+   /\ Names(pr.nodes[n].outputs) \cap (Names(pr.nodes[j].inputs) \cup Names(pr.nodes[j].wait_for)) # {}
+   /\ DependsOn(pr, {j}, n)
+
 AutoProg(pr) == [pr EXCEPT !.nodes = [i \in NodeIdx(pr) |-> [pr.nodes[i] EXCEPT !.pause_at = <<>>]]]
 
 C14(job) ==
@@ -346,11 +351,11 @@ C14(job) ==
        [ names_interrupt |-> IsIntr(nd),
          key   |-> r.pause.key = nd.outputs[1],
          value |-> Len(nd.inputs) > 0 => r.pause.value = Resolve(pr, [vals |-> r.vals], nd, nd.inputs[1]),
-         dependants_idle |-> \A k \in 1..Len(r.calls) : r.calls[k].frame = "" =>
+         dependants_idle |-> OnCycle(pr, pi) \/ \A k \in 1..Len(r.calls) : r.calls[k].frame = "" =>
                                 ~(IdxOf(pr, r.calls[k].node) # pi /\ DependsOn(pr, {pi}, IdxOf(pr, r.calls[k].node))),
-         in_order |-> \A j \in NodeIdx(pr) : (IsIntr(pr.nodes[j]) /\ j # pi /\ DependsOn(pr, {j}, pi))
+         in_order |-> OnCycle(pr, pi) \/ \A j \in NodeIdx(pr) : (IsIntr(pr.nodes[j]) /\ j # pi /\ DependsOn(pr, {j}, pi))
                           => \A o \in DataOutputs(pr.nodes[j]) : o \in DOMAIN r.vals,
-         partial |-> \A k \in DOMAIN FilterOut(pr, r.vals, job.select) :
+         partial |-> OnCycle(pr, pi) \/ \A k \in DOMAIN FilterOut(pr, r.vals, job.select) :
                         k \in DOMAIN auto.vals /\ (auto.vals[k] = r.vals[k] \/ k \in PairKeys(job.provided)) ]
      ELSE IF r.status = "completed" THEN
        [ same_as_auto |-> auto.status = "completed" /\ FilterOut(pr, r.vals, job.select) = FilterOut(pr, auto.vals, job.select) ]
